@@ -14,7 +14,9 @@ ARR1 = (-20, 20)
 ARR2 = (-10, 10)
 SCALARS = ['s', 't', 'u', 'n', 'm']
 LOOPVARS = ['i', 'j', 'k', 'l']
-ARRAYS = {'a': [list(ARR1)], 'b': [list(ARR1)], 'c': [list(ARR2), list(ARR2)]}
+ARR3 = (-4, 6)
+ARRAYS = {'a': [list(ARR1)], 'b': [list(ARR1)], 'c': [list(ARR2), list(ARR2)],
+          'd': [list(ARR3), list(ARR3)], 'e': [list(ARR3), list(ARR3)]}
 
 def base_unit(body, extra_scalars=()):
     return {'name': 'lv31', 'args': SCALARS + list(ARRAYS), 'scalars': SCALARS + LOOPVARS + list(extra_scalars),
@@ -287,6 +289,55 @@ def indep_bodies(rng, v, nb, flow):
         bodies.append(body)
     return bodies
 
+def gen_fusion_collapse(rng):
+    """2-3 perfect 2-nests, identical unit-step ranges, `collapse(2)`; nest k writes its own 2-D array (c, d, e) at both
+    counters (possibly transposed), reads it back at the same cell and earlier arrays at the cell their writer used,
+    so that iteration (x,y) of a later nest only depends on iteration (x,y) of earlier ones"""
+    nn = rng.randint(2, 3)
+    def hdr():
+        c = rng.random()
+        if c < 0.45: return I(1), V(rng.choice(['n', 'm'])), rng.choice([None, None, I(1)])
+        if c < 0.8:
+            a = rng.randint(-2, 2); return I(a), I(a + rng.randint(0, 3)), None
+        return I(rng.randint(-2, 1)), V('n'), None
+    h1, h2 = hdr(), hdr()
+    first = rng.choice([('i', 'j'), ('i', 'j'), ('j', 'k'), ('k', 'i')])
+    names = ['i', 'j', 'k', 'l']
+    perms = [first, (first[1], first[0])]
+    others = [x for x in names if x not in first]
+    perms += [(others[0], first[0]), (others[0], others[1]), (first[1], others[0]), (others[1], first[1]), (others[0], first[1])]
+    arrs = ['c', 'd', 'e']
+    orient = [rng.random() < 0.5 for _ in range(nn)]      # True: own array written at (outer, inner), False: transposed
+    grp = rng.choice(['', ' group(g2)'])
+    body = []
+    if rng.random() < 0.3: body.append(['assign', 's', wrap(['sum', False, V('s'), I(1)])])
+    for k in range(nn):
+        w = first if k == 0 else rng.choice(perms)
+        def cell(x):
+            a = arrs[x]
+            idx = [V(w[0]), V(w[1])] if orient[x] else [V(w[1]), V(w[0])]
+            return a, idx
+        def ex(d):
+            r = rng.random()
+            if d <= 0 or r < 0.35:
+                c = rng.random()
+                if c < 0.3: return V(w[0])
+                if c < 0.6: return V(w[1])
+                if c < 0.7: return V(rng.choice(['n', 'm']))
+                if c < 0.8: return I(rng.randint(0, 9))
+                a, idx = cell(rng.randint(0, k))
+                return ['call', a] + idx
+            if r < 0.6: return ['sum', False, ex(d - 1), ex(d - 1)]
+            if r < 0.8: return ['sum', False, ['prod', False, ex(d - 1), I(rng.choice([2, 10, 100]))], ex(d - 1)]
+            return ['sum', False, ex(d - 1), neg(ex(d - 1))]
+        a, idx = cell(k)
+        inner = [['store', a, idx, wrap(['sum', False, ['prod', False, V(w[0]), I(10)], ['sum', False, V(w[1]), ex(2)]])]]
+        if rng.random() < 0.3: inner.append(['store', a, idx, wrap(['sum', False, ['call', a] + idx, ex(1)])])
+        body.append(['skip', '$loki loop-fusion collapse(2)' + grp])
+        body.append(['do', w[0], h1[0], h1[1], h1[2], [['do', w[1], h2[0], h2[1], h2[2], inner]]])
+    if rng.random() < 0.4: body.append(['assign', 't', wrap(['sum', False, V('t'), ['call', 'd', I(1), I(1)]])])
+    return body
+
 def gen_fuse_header(rng):
     c = rng.random()
     if c < 0.4: return I(1), V('n'), None
@@ -320,7 +371,7 @@ class C31(Property):
             'reproduce the transformed IR (stmts_eqb after dropping comments/pragmas). unroll_sweep: every literal (start,stop,step) in [-R,R]^3 '
             '(R=3 quick, 6 thorough; step<>0, plus implicit step and zero step) with an order-sensitive body; unroll_nest: random nests up to depth 3 '
             'mixing literal, symbolic and counter-dependent bounds, neighbour loops, loops under IF, pragmas with/without depth(0..3); '
-            'fusion/fission/interchange: legal by construction (syntactic_indep evaluated in Coq on every case); split: literal and symbolic '
+            'fusion/fission/interchange: legal by construction (syntactic_indep evaluated in Coq on every case); fusion_collapse: groups of 2-3 perfect 2-nests under collapse(2) with permuted/renamed counters ((i,j)/(j,i)/(k,i)/..), legal by construction (checked by the oracle only); split: literal and symbolic '
             'ranges with block sizes 1..4 inside the class num_iterations = trip count. Oracle: reference interpreter on original vs transformed IR '
             'over 3 random stores, all scalars except unrolled/renamed DO variables and all array cells; gfortran on fgen output for a sample (4% quick, 10% thorough). '
             'non-trivial = the transformation changed the program and some loop body executed; distinct = distinct (kind, parsed program)')
@@ -328,6 +379,7 @@ class C31(Property):
         'Loki frontend/IR <-> MiniF bridge (minif.from_loki, bridge_expr.structure) and the Fortran printer used to feed the frontend',
         'SubstituteExpressions is modelled as msubst on expressions/statement operands; substitution of left-hand sides or DO variables (bodies that assign the loop variable) is outside the class',
         'pragma attachment (pragmas_attached) is modelled by adjacency of the pragma line and the loop; depth(n) parsed for single digits',
+        'fusion with collapse(2) (do_fusion2, simultaneous renaming of both counters) is modelled and tied structurally but has no theorem; its legality is not checked in Coq',
         'fusion: only groups of top-level loops with syntactically equal unit-step ranges (Polyhedron-based bound reconstruction modelled as identity up to literal normalisation); loop-variable renaming is modelled but the fusion theorem is stated for a common variable',
         'fission: markers at the top level of a loop body; automatic promotion (promote=True) is not modelled - cases with array flow across a marker run with promote=False (see finding F2)',
         'split_loop: the three index expressions pass through simplify(); they are tied by evaluation on sample valuations (not structurally), block_loop_arrays is not modelled',
@@ -387,6 +439,9 @@ class C31(Property):
             for bd in bodies:
                 body += [['skip', '$loki loop-fusion'], ['do', 'i', I(1), V('n'), I(2), bd]]
             yield mk('fusion_step', body, arrays=list(ARRAYS), gf=False)
+        # 3b. fusion of collapsed 2-nests whose counters are permuted / renamed (simultaneous renaming)
+        for _ in range(50 if quick else 250):
+            yield mk('fusion_collapse', gen_fusion_collapse(rng), gf=rng.random() < (0.15 if quick else 0.3))
         # 4. fission
         for _ in range(50 if quick else 200):
             nb = rng.randint(2, 3)
@@ -510,6 +565,9 @@ class C31(Property):
         if kind.startswith('unroll'):
             if out['error'] not in (None, 'ValueError'): raise ValueError(out['error'])
             return coq(C('chk_unroll', p0, None if p1 is None else Some(p1)))
+        if kind == 'fusion_collapse':
+            if out['error'] is not None: raise ValueError(out['error'])
+            return coq(C('chk_fusion2', p0, p1))
         if kind.startswith('fusion'):
             if out['error'] not in (None, 'AssertionError'): raise ValueError(out['error'])
             tagged = [(out['p0'][i + 1]) for i, s in enumerate(out['p0'][:-1]) if s[0] == 'skip' and s[1].startswith('$loki loop-fusion') and out['p0'][i + 1][0] == 'do']
@@ -547,6 +605,7 @@ class C31(Property):
         kind = case['kind']
         p0 = coq(minif.stmts_model(out['p0']))
         if kind.startswith('unroll'): return ['strip_skips (do_unroll %s)' % p0]
+        if kind == 'fusion_collapse': return ['do_fusion2 %s' % p0]
         if kind.startswith('fusion'): return ['do_fusion %s' % p0]
         if kind == 'fission': return ['strip_skips (do_fission %s)' % p0]
         if kind == 'interchange': return ['strip_skips (do_interchange %s)' % p0]
@@ -577,6 +636,8 @@ class C31(Property):
                 if e[0] == 'prod' and len(e) == 4 and e[2] == ['py', -1]: return maybe_lit(e[3])
                 return False
             return {l[1] for l in loops_of(p0) if maybe_lit(l[2]) and maybe_lit(l[3]) and maybe_lit(l[4])}
+        if kind == 'fusion_collapse':
+            return set(LOOPVARS)
         if kind.startswith('fusion'):
             tagged = [p0[i + 1] for i, s in enumerate(p0[:-1]) if s[0] == 'skip' and p0[i + 1][0] == 'do']
             return {l[1] for l in tagged[1:] if l[1] != tagged[0][1]}
